@@ -5,6 +5,7 @@ import copy
 import io
 import itertools
 import os
+import pathlib
 import shutil
 
 from .. import fsmon, model, sig
@@ -164,6 +165,10 @@ def run_case(ctx, case):
             ("get_project-nosearch", lambda: signac.get_project(root, search=False)),
             ("init_project", lambda: signac.init_project(root)),
             ("Project.get_project", lambda: signac.Project.get_project(root)),
+            # the same directory given as a path object
+            ("Project-pathlib", lambda: signac.Project(pathlib.Path(root))),
+            ("get_project-pathlib", lambda: signac.get_project(pathlib.Path(root))),
+            ("init_project-pathlib", lambda: signac.init_project(pathlib.Path(root))),
         ]
         for name, fn in calls:
             with fsmon.Session([root], readonly=[root]) as s:
